@@ -52,9 +52,12 @@ Proof.
   destruct (memZ (snd x) c); [reflexivity|]. rewrite settle_mig. reflexivity.
 Qed.
 
-Lemma end_block_mig : forall t n b c s, mig (end_block t n b c s) = mig s.
+Lemma valset_mig : forall vs s, mig (valset_update vs s) = mig s.
+Proof. intros. unfold valset_update. destruct (v_pool vs =? 0); reflexivity. Qed.
+
+Lemma end_block_mig : forall t n b c vs s, mig (end_block t n b c vs s) = mig s.
 Proof.
-  intros. unfold end_block. cbn [mig set_clock]. rewrite sebl_mig. unfold gov_endblock.
+  intros. unfold end_block. cbn [mig set_clock]. rewrite sebl_mig, valset_mig. unfold gov_endblock.
   rewrite (fold_keeps mig _ (close_mig b c)), (fold_keeps mig _ drop_mig). reflexivity.
 Qed.
 
@@ -216,8 +219,8 @@ Qed.
    blocker converts it into a regular proposal (new end = voting start + default period), it stays queued and open, and
    its proposer is still refused; after the regular end it is closed and the migration goes through *)
 Theorem gov_expedited_example :
-  let s1 := run unit sig_any ex_init [OSubmit unit 1 600 true 100 500; OEndBlock unit 200 205 [] [1]] in
-  let s2 := run unit sig_any ex_init [OSubmit unit 1 600 true 100 500; OEndBlock unit 200 205 [] [1]; OEndBlock unit 1100 1105 [] []] in
+  let s1 := run unit sig_any ex_init [OSubmit unit 1 600 true 100 500; OEndBlock unit 200 205 [] [1] no_vside] in
+  let s2 := run unit sig_any ex_init [OSubmit unit 1 600 true 100 500; OEndBlock unit 200 205 [] [1] no_vside; OEndBlock unit 1100 1105 [] [] no_vside] in
   govwfb s1 = true /\ involved_open s1 1 /\ activeq (gov s1) = [(1010, 1)] /\
   migrate_tx unit sig_any s1 1 5 (Some tt) = Err EGov /\
   (exists s', migrate_tx unit sig_any s2 1 5 (Some tt) = Ok s').
